@@ -184,8 +184,15 @@ func solveAll(cfg Config, units []*Unit, keep func(o *sym.Obligation) bool, outD
 				j.R = solve.Result{Answer: "error", Output: "script larger than the 768 KiB cap"}
 			} else {
 				limit := cfg.limit()
-				if j.O.Cover && cfg.Tier != "thorough" && limit > 2*time.Second {
-					limit = 2 * time.Second // anti-vacuity checks must answer sat; quantified facts often make that slow
+				if j.O.Cover {
+					// anti-vacuity checks must answer sat / unsat; quantified facts often make "sat" slow (inconclusive is not a failure)
+					capAt := 2 * time.Second
+					if cfg.Tier == "thorough" {
+						capAt = 6 * time.Second
+					}
+					if limit > capAt {
+						limit = capAt
+					}
 				}
 				j.R = solve.Race(j.Script, outDir, fmt.Sprintf("ob%05d", i), limit, cfg.Seed, cfg.Tier == "thorough" && !j.O.Cover)
 			}
